@@ -19,6 +19,26 @@ pub struct C02;
 pub struct Case {
     pub spec: GraphSpec,
     pub chunk: Chunking,
+    /// compile through rsass' own FsLoader over the simulated file system, the root opened by a path
+    /// WITH a directory part (`w/root.scss` from the top of the tree), instead of through the stub
+    #[serde(default)]
+    pub via_fs: bool,
+}
+
+/// The same graph through `FsLoader::for_path("w/root.scss")` + `push_path`, file system simulated.
+pub fn run_graph_real(spec: &GraphSpec, plan: &FaultPlan, chunk: Chunking, budget: u64) -> Outcome {
+    let fs = spec.build_fs();
+    run_job_real(&RealJob {
+        fs: &fs,
+        bases: &spec.bases,
+        root_rel: &spec.root_name(),
+        fmt: spec.fmt,
+        plan,
+        chunk,
+        budget,
+        via: Via::Fs,
+        root_with_dir: true,
+    })
 }
 
 pub fn graph_job_parts(spec: &GraphSpec) -> (Rc<FsStore>, String, String, Rc<Vec<u8>>) {
@@ -80,7 +100,8 @@ pub fn judge(case: &Case, stats: &mut Stats) -> (Judgement, Option<Outcome>) {
     };
     let budget = 64 * (bound + 2);
     let plan = FaultPlan::default();
-    let o = run_graph(spec, &plan, Chunking::NONE, budget);
+    let run = |chunk: Chunking| if case.via_fs { run_graph_real(spec, &plan, chunk, budget) } else { run_graph(spec, &plan, chunk, budget) };
+    let o = run(Chunking::NONE);
     stats.compiled(&o);
     let sig = {
         let mut s = format!(
@@ -97,6 +118,9 @@ pub fn judge(case: &Case, stats: &mut Stats) -> (Judgement, Option<Outcome>) {
         }
         if let Some((_, _, k)) = cached.closing {
             s.push_str(&format!(" closing={}", k.letter()));
+        }
+        if case.via_fs {
+            s.push_str(" loader=fs_over_simfs_root_with_dir");
         }
         s
     };
@@ -179,7 +203,7 @@ pub fn judge(case: &Case, stats: &mut Stats) -> (Judgement, Option<Outcome>) {
     }
     // oracle 4: benign faults never change the result
     if case.chunk.is_benign_noise() {
-        let o2 = run_graph(spec, &plan, case.chunk, budget);
+        let o2 = run(case.chunk);
         stats.compiled(&o2);
         if o2.res != o.res {
             return (
@@ -261,7 +285,7 @@ impl Prop for C02 {
                 (3, k / 2, k % 2)
             };
             let spec = exhaustive_graph(n, code, variant, &mut rng);
-            let case = Case { spec, chunk: Chunking::NONE };
+            let case = Case { spec, chunk: Chunking::NONE, via_fs: false };
             stats.inc("runs");
             stats.inc(&format!("stratum:exhaustive_n{n}"));
             let (j, o) = judge(&case, stats);
@@ -283,8 +307,14 @@ impl Prop for C02 {
             stats.inc("probe:deep_chain");
         }
         let spec = gen_graph(&params, &mut rng);
-        let chunk = if rng.chance(1, 3) { Chunking::draw(&mut rng) } else { Chunking::NONE };
-        let case = Case { spec, chunk };
+        let chunk = if rng.chance(1, 3) { Chunking::draw_for_generated(&mut rng) } else { Chunking::NONE };
+        // graphs whose root sits directly in its base are, every third time, compiled through the real
+        // FsLoader with the root opened as `w/root.scss` (how a root is NAMED must not matter to locking)
+        let via_fs = index % 3 == 1 && !spec.root_name().contains('/');
+        if via_fs {
+            stats.inc("probe:through_fsloader_root_with_dir");
+        }
+        let case = Case { spec, chunk, via_fs };
         stats.inc("runs");
         stats.inc(&format!("stratum:{}", params.stratum_name()));
         let (j, o) = judge(&case, stats);
@@ -340,10 +370,10 @@ impl Prop for C02 {
         };
         let mut out = vec![];
         if case.chunk != Chunking::NONE {
-            out.push(serde_json::to_value(Case { spec: case.spec.clone(), chunk: Chunking::NONE }).unwrap());
+            out.push(serde_json::to_value(Case { spec: case.spec.clone(), chunk: Chunking::NONE, via_fs: case.via_fs }).unwrap());
         }
         for g in graph_shrinks(&case.spec) {
-            out.push(serde_json::to_value(Case { spec: g, chunk: case.chunk }).unwrap());
+            out.push(serde_json::to_value(Case { spec: g, chunk: case.chunk, via_fs: case.via_fs }).unwrap());
         }
         out
     }
